@@ -292,6 +292,38 @@ def sprintFields : List (Bytes × GoVal) → Res Cause (List (Bytes × Bytes))
   | (k, v) :: r => (sprint v).bind fun vb => (sprintFields r).bind fun es => .ok ((k, vb) :: es)
 end
 
+/-! ## `values.ResolveDrops` -/
+
+mutual
+/-- `values.ResolveDrops` (`fixes/nested-drops-resolved`): `ToLiquid` at every depth of a value that is about
+    to be printed. A drop is the value it yields; the elements of slices and arrays, the values of maps and
+    of the items of a `yaml.MapSlice` are resolved in turn (keys are not, nor the fields of a struct, nor what
+    a pointer points to). The code rebuilds a container that holds a drop as `[]any` / `map[K]any` and returns
+    any other value itself; `fmt` prints a container without its type, so the model keeps the type. -/
+def GoVal.resolveDrops : GoVal → GoVal
+  | .drop v => v.resolveDrops
+  | .ptr (.drop v) => v.resolveDrops
+  | .slice t xs => .slice t (resolveDropsList xs)
+  | .array t xs => .array t (resolveDropsList xs)
+  | .map k t kvs => .map k t (resolveDropsVals kvs)
+  | .mapSlice kvs => .mapSlice (resolveDropsVals kvs)
+  | .keyedMap fs => .keyedMap (resolveDropsFields fs)
+  | v => v
+def resolveDropsList : List GoVal → List GoVal
+  | [] => []
+  | x :: xs => x.resolveDrops :: resolveDropsList xs
+def resolveDropsVals : List (GoVal × GoVal) → List (GoVal × GoVal)
+  | [] => []
+  | (k, v) :: r => (k, v.resolveDrops) :: resolveDropsVals r
+def resolveDropsFields : List (Bytes × GoVal) → List (Bytes × GoVal)
+  | [] => []
+  | (k, v) :: r => (k, v.resolveDrops) :: resolveDropsFields r
+end
+
+/-- `fmt.Sprint(values.ResolveDrops(v))`: how the library prints a value in Go syntax (the fallback of
+    `writeObject`, `Convert` to a string, `join`, the key of `sort_natural`) -/
+def sprintR (v : GoVal) : Res Cause Bytes := sprint v.resolveDrops
+
 /-! ## `render.writeObject` -/
 
 /-- the float case added by the D23 repair: a whole float below 10^21 in plain decimal -/
@@ -306,13 +338,15 @@ def writeObjectL : GoVal → Res Cause Bytes
   | .flt k q => if isWholeSmall q then fmtFloatF k q else fmtFloatG k q
   | .slice _ xs => writeObjects xs
   | .array _ xs => writeObjects xs
-  | .mapSlice kvs => (sprintItems kvs).bind fun bs => .ok bs.flatten     -- a slice of MapItem structs
+  | .mapSlice kvs => (sprintItems (resolveDropsVals kvs)).bind fun bs => .ok bs.flatten     -- a slice of MapItem structs
+  | .drop v => writeObjectL v          -- not reached from `writeObject`: `ToLiquid` leaves no drop
+  | .ptr (.drop v) => writeObjectL v
   | .ptr (.ptr _) => .unmodelled "fmt: pointer to pointer"
   | .ptr .nilPtr => .unmodelled "fmt: pointer to pointer"
   | .ptr v => sprint v        -- writeObject(reflect.Value) ⇒ Sprint prints the value it holds
   | .nilPtr => .ok [60, 105, 110, 118, 97, 108, 105, 100, 32, 114, 101, 102, 108, 101, 99, 116, 46, 86, 97, 108, 117, 101, 62]
-  | v => sprint v
-/-- the elements of an array, each through `writeObject` (ToLiquid, one level, then `writeObjectL`) -/
+  | v => sprintR v
+/-- the elements of an array, each through `writeObject` (`ToLiquid`, then `writeObjectL`) -/
 def writeObjects : List GoVal → Res Cause Bytes
   | [] => .ok []
   | .drop v :: xs => (writeObjectL v).bind fun a => (writeObjects xs).bind fun b => .ok (a ++ b)
